@@ -39,8 +39,8 @@ CONSTANTS ExtClass,    \* spelling -> class "n" | "p" | "s" | "i"
                        \* space) for the enumeration, "" for traces (literals compared modulo white space)
 
 \* ---- lexical classes of the spellings used by the enumerations ------------
-Nums   == {"0", "1", "2", "3", "5"}
-Puncts == {"+", "-", "*", "(", ")", ",", "=", "[", "]", "<", ";", ">", ">=", "==", "|"}
+Nums   == {"0", "1", "2", "3", "5", "1'000", "2'000"}
+Puncts == {"+", "-", "*", "(", ")", ",", "=", "[", "]", "<", ";", ">", ">=", "==", "|", "&", "!", "~", "{", "}", "#"}
 \* string / character literals of the alphabet and their spelling inside a # result (" and \ escaped);
 \* generated: C spelling :> spelling after #
 EscTab == (   "\"O,F\"" :> "\\\"O,F\\\""
@@ -190,9 +190,12 @@ ArityOK(d, ap) == IF d.va THEN Len(ap) >= Len(d.params) ELSE Len(ap) = Len(d.par
 \*                right operand is not empty and tokens precede the left operand
 \*   litparam     the replacement list of the invoked function-like macro contains a string or
 \*                character literal in which the name of one of its parameters is spelled
+\*   objhash      an object-like macro is replaced whose replacement list contains # (an ordinary
+\*                token there)
 \*   hidearg      an invocation of a function-like macro M is replaced while an argument of an
 \*                enclosing invocation of M is being replaced, other than directly in an argument
 \*                of a source-line invocation of M
+\*   strchq       # applied to an argument that contains the character literal '"'
 \*   strva        # applied to __VA_ARGS__ holding two or more arguments
 \* Two more events only serve the sanity invariant NoResidual (they are not input classes):
 \*   ~vanish      a replacement produced no token;   ~lparen   a replacement begins with "("
@@ -224,6 +227,7 @@ Subst(D, is, cx, os, ev) ==
     IF h = "#" /\ d.fn /\ r # <<>> /\ IsParam(d, Head(r))
       THEN Subst(D, Tail(r), cx, Append(os, Stringize(Select(d, ap, Head(r)))),
                  ev \cup Ev((cx.encl # <<>> /\ cx.empty) \/ (Head(r) = "__VA_ARGS__" /\ Len(ap) <= Len(d.params)), "strmissing")
+                    \cup Ev(\E i \in 1..Len(Select(d, ap, Head(r))) : Select(d, ap, Head(r))[i].t = "'\"'", "strchq")
                     \cup Ev(Head(r) = "__VA_ARGS__" /\ Len(ap) > Len(d.params) + 1, "strva"))
     ELSE IF h = "##" /\ r # <<>> /\ Head(r) = "__VA_ARGS__" /\ d.va /\ os # <<>> /\ Last(os).t = ","
       \* GNU extension (documented, and what interrogate says it follows): `, ## __VA_ARGS__`
@@ -277,7 +281,8 @@ Expand(D, ts, encl) ==
     ELSE LET d == D[T.t] IN
       IF ~d.fn
       THEN LET s == Subst(D, d.body, [m |-> T.t, d |-> d, ap |-> <<>>, hs |-> T.hs \cup {T.t}, encl |-> encl, empty |-> FALSE], <<>>, {})
-           IN WithEv(s.ev \cup Shape(s.ts), Expand(D, s.ts \o rest, encl))
+           IN WithEv(s.ev \cup Shape(s.ts) \cup Ev(\E i \in 1..Len(d.body) : d.body[i] = "#", "objhash"),
+                     Expand(D, s.ts \o rest, encl))
       ELSE IF rest = <<>> \/ Head(rest).t # "(" THEN Cons(T, Expand(D, rest, encl))
       ELSE LET close == MatchParen(rest, 1) IN
         IF close = 0 THEN R(<<Tok("$U")>>, {})
